@@ -945,6 +945,19 @@ class StopSequenceMonitor(Monitor):
         self.stopped_at = {}
         run.world.on_hook('send_state_event', self.on_state)
         self.closing = None
+        self.tracker.listeners_start.append(self.on_start_request)
+
+    def on_start_request(self, inst, req):
+        # orderly restart / shutdown: once an instance has published RESTARTING / SHUTTING_DOWN everything is being
+        # stopped - it does not ask for any process to be started (a restart_application / restart_process whose start
+        # half was still pending when the closing request arrived is dropped with the other jobs)
+        self.count('start_requests_seen_by_the_closing_clause')
+        state = self.final_states.get((inst.nick, inst.inc))
+        if state in ('RESTARTING', 'SHUTTING_DOWN', 'FINAL'):
+            self.violate('C09/start-request-during-closing', f"{inst.nick}, which has published {state}, asks "
+                         f"{req['target_nick']} to start {req['namespec']} at vt={vt(self.run.world)}: the closing phase "
+                         f"stops everything, in order, before the Supervisors are restarted / shut down",
+                         case=self.run.describe())
 
     def stop_seq(self, namespec):
         app, prog = self.run.prog_of(namespec)
